@@ -49,6 +49,8 @@ pub enum Op {
     SetDevNotify(bool),
     DevFlags(u16),
     DevAvailEvent(u16),
+    /// the device asks to be notified at (current available index + offset)
+    DevAvailEventRel(i8),
 }
 
 #[derive(Clone, Debug, Serialize, Deserialize, PartialEq, Eq)]
@@ -266,6 +268,7 @@ pub struct Flags {
     pub pipelined_rounds: u32,
     pub max_out: usize,
     pub c05_checks: u32,
+    pub c05_event_windows: u32,
 }
 
 pub struct Eng {
@@ -281,6 +284,7 @@ pub struct Eng {
     held: usize,
     ring_model: Vec<u16>,
     avail_idx: u16,
+    last_sn_idx: u16,
     desc_owner: Vec<Option<u16>>,
     adds: u64,
     pops: u64,
@@ -361,6 +365,7 @@ impl Eng {
             desc_owner: vec![None; n],
             adds: 0,
             pops: 0,
+            last_sn_idx: 0,
             dev_flags: 0,
             shadow,
             flags: Flags {
@@ -375,6 +380,7 @@ impl Eng {
                 c02_nontrivial: 0,
                 wrapped: false,
                 pipelined_rounds: 0,
+                c05_event_windows: 0,
                 max_out: 0,
                 c05_checks: 0,
             },
@@ -974,6 +980,29 @@ impl Eng {
             if sn != want {
                 return Err(v("C05", format!("should_notify() = {} with device used.flags = {:#x} (event-index off)", sn, self.dev_flags)));
             }
+        } else {
+            // entries [old, new) were made available since the driver last asked; whatever
+            // completions were consumed in between, the answer must be yes when the index the
+            // device asked for lies among them
+            let (old, new) = (self.last_sn_idx, self.avail_idx);
+            let ev = with(|w| w.hal.peek(self.rq.used + 4 + 8 * self.n as u64, 2)).map_err(|m| v("C04", m))?;
+            let ev = u16::from_le_bytes([ev[0], ev[1]]);
+            if new != old {
+                self.flags.c05_checks += 1;
+                if crate::ring::need_event(ev, new, old) {
+                    self.flags.c05_event_windows += 1;
+                    if !sn {
+                        return Err(v(
+                            "C05",
+                            format!(
+                                "event-index: entries [{}, {}) were made available since the last check and the device asked to be notified at index {}, but should_notify() returned false ({} chains outstanding, {} completions consumed so far)",
+                                old, new, ev, self.subs.len(), self.pops
+                            ),
+                        ));
+                    }
+                }
+            }
+            self.last_sn_idx = new;
         }
         Ok(())
     }
@@ -1031,6 +1060,10 @@ impl Eng {
             Op::DevFlags(f) => {
                 self.dev_flags = *f & 1;
                 with(|w| self.rq.set_used_flags(&w.hal, self.dev_flags)).map_err(|m| v("C04", m))?;
+            }
+            Op::DevAvailEventRel(d) => {
+                let e = self.avail_idx.wrapping_add(*d as i16 as u16);
+                with(|w| self.rq.set_avail_event(&w.hal, e)).map_err(|m| v("C04", m))?;
             }
             Op::DevAvailEvent(e) => {
                 with(|w| self.rq.set_avail_event(&w.hal, *e)).map_err(|m| v("C04", m))?;
@@ -1265,6 +1298,7 @@ pub fn run_case(c: &QCase, prop: &'static str, st: &mut Stats) -> Result<(), Str
                 }
                 "C05" => {
                     st.class_n("flag_and_used_event_checks", f.c05_checks as u64);
+                    st.class_n("history_windows_containing_avail_event", f.c05_event_windows as u64);
                 }
                 "C07" => {
                     st.nontrivial(cs.get(), sample);
@@ -1323,6 +1357,7 @@ pub fn op_strategy() -> impl Strategy<Value = Op> {
         1 => any::<bool>().prop_map(Op::SetDevNotify),
         1 => (0u16..=1).prop_map(Op::DevFlags),
         1 => any::<u16>().prop_map(Op::DevAvailEvent),
+        2 => (-6i8..6).prop_map(Op::DevAvailEventRel),
     ]
 }
 
